@@ -263,6 +263,9 @@ func ClockAdvance(d time.Duration) {
 	vnow += int64(d)
 	mu.Unlock()
 }
+// Sleep parks the calling goroutine on the virtual clock (symbolic); natively it only advances the virtual clock.
+func Sleep(d time.Duration) { ClockAdvance(d) }
+
 func NowNs() int64 { mu.Lock(); defer mu.Unlock(); return vnow }
 func Yield()       {}
 
